@@ -183,6 +183,33 @@ Theorem C06_fragment_roundtrip_multi :
 Proof. exact fragment_roundtrip_multi. Qed.
 Print Assumptions C06_fragment_roundtrip_multi.
 
+(* finding C06-F7 (fixed in /repo, fc9ee41): the pinned text fetched the samples of the FIRST traf of the track for
+   every traf (C06MultiModel.decrypt_multi_pinned).  Two trafs of one cenc track: the text of the tree restores both, the
+   pinned text returns nil with the clear box tree and both trafs still encrypted *)
+Theorem C06_first_traf_samples_refuted :
+  let di := [(1, Some (mkTI Cenc [] 0 0))] in
+  let key := repeat 3 16 in
+  let iv_of := fun _ : N => repeat 7 16 in
+  let cs := [XOther 16 1;
+             XTraf (mkX 1 [mkT TOther 16 2; mkT TTrun 20 3; mkT TSenc 32 4] [] [] [] [[10; 20; 30]]);
+             XTraf (mkX 1 [mkT TOther 16 5; mkT TTrun 20 6; mkT TSenc 32 7] [] [] [] [[40; 50; 60]])] in
+  match enc_children f7_E f7_E (fun _ _ => Ok []) iv_of di key cs with
+  | Ok cs_e =>
+      let f := xlayout 0 cs_e 8 [[0]; [3]] in
+      decrypt_multi f7_E f7_E di key f = Ok (xlayout 0 (clear_children di cs) 8 [[0]; [3]]) /\
+      match decrypt_multi_pinned f7_E f7_E di key f with
+      | Ok g =>
+          map (fun c => match c with XTraf t => x_data t | _ => [] end) (xf_children g)
+          = [[]; [[2; 28; 22]]; [[32; 58; 52]]] /\
+          map (fun c => match c with XTraf t => x_data t | _ => [] end) cs_e = [[]; [[2; 28; 22]]; [[32; 58; 52]]] /\
+          map x_struct (xf_children g) = map x_struct (xf_children (xlayout 0 (clear_children di cs) 8 [[0]; [3]]))
+      | _ => False
+      end
+  | _ => False
+  end.
+Proof. exact first_traf_samples_refuted. Qed.
+Print Assumptions C06_first_traf_samples_refuted.
+
 (* the clear tree named by the two theorems holds no pssh box and no protection box in a protected traf *)
 Theorem C06_clear_tree_clean : forall di cs c,
   In c (clear_children di cs) ->
